@@ -69,14 +69,14 @@ def parse_deps(dfile):
     return [d for d in deps if not d.startswith('/usr/')]
 
 
-def compile_obj(variant, src):
+def compile_obj(variant, src, extra=()):
     """Compile src for variant if its key (flags + contents of all non-system deps) changed."""
     cc, cflags, _, _ = VARIANTS[variant]
     odir = os.path.join(BUILD, variant)
     os.makedirs(odir, exist_ok=True)
-    name = sha(os.path.abspath(src))[:10] + '_' + os.path.basename(src)
+    name = sha(os.path.abspath(src), ' '.join(extra))[:10] + '_' + os.path.basename(src)
     obj, dfile, kfile = [os.path.join(odir, name + e) for e in ('.o', '.d', '.key')]
-    cmd = [cc] + COMMON + cflags + ['-MMD', '-MF', dfile, '-c', src, '-o', obj]
+    cmd = [cc] + COMMON + cflags + list(extra) + ['-MMD', '-MF', dfile, '-c', src, '-o', obj]
 
     def key():
         deps = parse_deps(dfile)
@@ -110,7 +110,7 @@ def build_engine(engines, name, variant):
         srcs += [os.path.join(REPO, s) for s in TULZ_SRC[grp]]
     srcs = list(dict.fromkeys(srcs))
     with cf.ThreadPoolExecutor(max_workers=NCPU) as ex:
-        res = list(ex.map(lambda s: compile_obj(variant, s), srcs))
+        res = list(ex.map(lambda s: compile_obj(variant, s, e.get('cflags', []) if s == srcs[0] else ()), srcs))
     objs = [r[0] for r in res]
     exe = os.path.join(BUILD, variant, name)
     lkey = sha(variant, *[file_bytes(o) for o in objs])
